@@ -298,17 +298,22 @@ func ruleQ7(c *an.Ctx) {
 // comment is kept exactly once and the output is a fixed point".
 //
 // Q8  A node synthesised by the formatter does not carry the comments of the node being printed.
-//     CallStm.format builds a `using (...)` block for the keyword modifiers; giving it the call's
-//     whole AstNode (`Node: self.Node`) copies the call's comments, which are then printed by the
-//     call, by the block and by every synthesised binding (4-6 times; not a fixed point).  In a
-//     method of package syntax, the AstNode of the receiver must not be stored as the Node of a
-//     freshly allocated AST node.
+//
+//	CallStm.format builds a `using (...)` block for the keyword modifiers; giving it the call's
+//	whole AstNode (`Node: self.Node`) copies the call's comments, which are then printed by the
+//	call, by the block and by every synthesised binding (4-6 times; not a fixed point).  In a
+//	method of package syntax, the AstNode of the receiver must not be stored as the Node of a
+//	freshly allocated AST node.
+//
 // Q9  Sibling agreement of the two retain formatters: each loop that prints retained elements calls
-//     printComments (RetainParams.format did, PipelineRetains.format did not: a comment before a
-//     retained reference was lost).
+//
+//	printComments (RetainParams.format did, PipelineRetains.format did not: a comment before a
+//	retained reference was lost).
+//
 // Q10 Wherever the formatter decides by `len(n.Comments)` whether an element has comments to
-//     print, it also looks at `n.scopeComments` of the same node (a comment followed by a blank
-//     line is a scope comment; ArrayExp/MapExp.format dropped it).
+//
+//	print, it also looks at `n.scopeComments` of the same node (a comment followed by a blank
+//	line is a scope comment; ArrayExp/MapExp.format dropped it).
 func ruleQ8Q10(c *an.Ctx) {
 	p := c.P
 	nodeT := p.Named(pkgSyntax, "AstNode")
